@@ -977,11 +977,13 @@ def search_forged(e, f, label="", timeout=40):
         for inp in lk["inputs"]:
             rows.append(set(a for poly in inp["exprs"] for _, cells in poly for a in (e.v(c) for c in cells) if not isinstance(a, int)))
     F = set(F0)
-    for _ in range(2):
+    for _ in range(6):
         add = set()
         for r_ in rows:
             if r_ & F:
                 add |= r_
+        if not (add - ins_ - F):
+            break
         F |= add - ins_
     # pins: class atoms outside F, derived atoms all of whose operands are pinned
     pinned = {nm: hon[nm] for nm in names.values() if nm not in F and nm in hon}
